@@ -131,6 +131,10 @@ def load_package(root: Optional[Path] = None) -> Package:
             tree = ast.parse(source, filename=str(path))
         except SyntaxError as exc:
             raise AnalysisError(f"{path}: does not parse: {exc}") from exc
+        if not os.environ.get("VERIF_NO_CANON"):
+            from . import canon
+
+            tree = canon.canonicalise(tree)  # spelling-level canonical forms (sa/canon.py): `x if not c else y`, `not a == b`, dict()/list()/tuple()
         _set_parents(tree)
         if not os.environ.get("VERIF_NO_ALPHA"):
             from . import alpha
